@@ -45,6 +45,8 @@ pub enum KSpec {
 	/// NoRecentDuplicate kernel (fee, relative height, excess slot: kernels built with the same
 	/// slot share the same excess commitment)
 	Nrd(u64, u64, usize),
+	/// a PLAIN kernel (fee) whose excess is the fixed excess of an NRD slot
+	PlainSlot(u64, usize),
 }
 
 #[derive(Clone, Debug)]
@@ -217,6 +219,7 @@ impl Kit {
 				},
 			)?,
 			KSpec::Nrd(fee, rel, slot) => make_nrd_tx(&self.kc, &ins, &new_outs, fee, rel, slot)?,
+			KSpec::PlainSlot(fee, slot) => make_slot_tx(&self.kc, &ins, &new_outs, KernelFeatures::Plain { fee: (fee as u32).into() }, slot)?,
 		};
 		for (v, key) in new_outs {
 			let commit = self
@@ -752,11 +755,28 @@ pub fn make_nrd_tx(
 	slot: usize,
 ) -> Result<Transaction, String> {
 	use grin_core::core::NRDRelativeHeight;
+	make_slot_tx(
+		kc,
+		ins,
+		outs,
+		KernelFeatures::NoRecentDuplicate {
+			fee: (fee as u32).into(),
+			relative_height: NRDRelativeHeight::new(rel).map_err(|e| format!("{:?}", e))?,
+		},
+		slot,
+	)
+}
+
+/// a transaction whose single kernel has the given features and the fixed excess of `slot`
+pub fn make_slot_tx(
+	kc: &ExtKeychain,
+	ins: &[(u64, Identifier, bool)],
+	outs: &[(u64, Identifier)],
+	features: KernelFeatures,
+	slot: usize,
+) -> Result<Transaction, String> {
 	use grin_core::libtx::aggsig;
-	let mut kernel = TxKernel::with_features(KernelFeatures::NoRecentDuplicate {
-		fee: (fee as u32).into(),
-		relative_height: NRDRelativeHeight::new(rel).map_err(|e| format!("{:?}", e))?,
-	});
+	let mut kernel = TxKernel::with_features(features);
 	let msg = kernel.msg_to_sign().map_err(|e| format!("{:?}", e))?;
 	let excess = nrd_excess(kc, slot);
 	let skey = excess.secret_key(kc.secp()).map_err(|e| format!("{:?}", e))?;
